@@ -37,7 +37,10 @@ class Untranslatable(Exception):
     pass
 
 
-FUNC_INDEX = {"stopTask": 0, "waitForCond": 1, "sleep": 2, "pubsubWait": 3, "getNextSignal": 4, "loopRun": 5}
+FUNC_INDEX = {"stopTask": 0, "waitForCond": 1, "sleep": 2, "pubsubWait": 3, "getNextSignal": 4, "loopRun": 5,
+              "runnerStop": 6, "requestShutdown": 7}
+STATE_NAMES = ("INITIAL", "EXCEPTION_WHILE_INSTANTIATING_TASK", "READY_TO_RUN", "RUNNING", "EXCEPTION_WHILE_RUNNING_TASK",
+               "TASK_COMPLETED_NORMALLY", "TASK_STOPPED_BEFORE_START")
 ACC_WRITERS = {"ldFlag", "ldWc", "condWait", "evWait", "ldPred", "ldLoc", "ldConst", "neg", "ldAny", "ldIsTask", "call"}
 RUNNING_STATE = "RUNNING"
 DATA_CALLS = {"time.monotonic", "int", "float", "min", "max", "abs"}
@@ -174,21 +177,6 @@ class FnCompiler:
         """Partial evaluation under the stated assumptions; None = not a constant."""
         if isinstance(node, ast.Compare) and len(node.ops) == 1:
             l, op, r = node.left, node.ops[0], node.comparators[0]
-            if u(l) == "self._state":
-                def name_of(x):
-                    s = u(x)
-                    if not s.startswith("_TaskThread.State."):
-                        self.fail(node, "comparison of self._state with something that is not a _TaskThread.State member")
-                    return s.rsplit(".", 1)[1]
-                if isinstance(op, (ast.Eq, ast.NotEq)):
-                    v = name_of(r) == RUNNING_STATE
-                    self.note("stop_task is partially evaluated for self._state == RUNNING")
-                    return v if isinstance(op, ast.Eq) else not v
-                if isinstance(op, (ast.In, ast.NotIn)) and isinstance(r, (ast.Tuple, ast.List, ast.Set)):
-                    v = RUNNING_STATE in [name_of(e) for e in r.elts]
-                    self.note("stop_task is partially evaluated for self._state == RUNNING")
-                    return v if isinstance(op, ast.In) else not v
-                self.fail(node, "test on self._state not understood")
             cur = "threading.current_thread()"
             if isinstance(op, (ast.Is, ast.IsNot)) and cur in (u(l), u(r)):
                 other = u(r) if u(l) == cur else u(l)
@@ -199,6 +187,15 @@ class FnCompiler:
             if u(l) == "self.task" and isinstance(op, (ast.Is, ast.IsNot)) and u(r) == "None":
                 return isinstance(op, ast.IsNot)       # the task object exists once the thread is RUNNING
         return None
+
+    def state_index(self, node, x) -> int:
+        s = u(x)
+        if not s.startswith("_TaskThread.State."):
+            self.fail(node, "comparison / assignment of self._state with something that is not a _TaskThread.State member")
+        name = s.rsplit(".", 1)[1]
+        if name not in self.tr.state_index:
+            self.fail(node, f"unknown member {name} of _TaskThread.State")
+        return self.tr.state_index[name]
 
     def note(self, s: str):
         if s not in self.tr.assumptions:
@@ -230,6 +227,20 @@ class FnCompiler:
             self.fail(node, "name used as a truth value is not a translated local")
         if isinstance(node, ast.Compare) and len(node.ops) == 1:
             l, op, r = node.left, node.ops[0], node.comparators[0]
+            # self._state ==/!=/in/not in <members>   (read under _state_cond)
+            if u(l) == "self._state":
+                if isinstance(op, (ast.Eq, ast.NotEq)):
+                    mask = 1 << self.state_index(node, r)
+                elif isinstance(op, (ast.In, ast.NotIn)) and isinstance(r, (ast.Tuple, ast.List, ast.Set)):
+                    mask = 0
+                    for e in r.elts:
+                        mask |= 1 << self.state_index(node, e)
+                else:
+                    self.fail(node, "test on self._state not understood")
+                self.emit("ldStateIn", mask)
+                if isinstance(op, (ast.NotEq, ast.NotIn)):
+                    self.emit("neg")
+                return
             # <slot or local holding it> is [not] None
             if isinstance(op, (ast.Is, ast.IsNot)) and isinstance(r, ast.Constant) and r.value is None:
                 if self.env.slot and u(l) == self.env.slot:
@@ -360,8 +371,13 @@ class FnCompiler:
                 self.tr.require_stop_requested()
                 self.emit("ldFlag")
                 return
-            if fs == "self._task_runner.stop" and not args:
-                self.tr.require_runner_stop()
+            if fs == "self._task_runner.stop" and not args and self.lname == "loopRun":
+                self.emit("call", FUNC_INDEX["runnerStop"])
+                return
+            if fs == "self._thread.stop_task" and not args and self.lname == "runnerStop":
+                self.emit("call", FUNC_INDEX["stopTask"])
+                return
+            if fs == "self.stop_task" and not args and self.lname == "requestShutdown":
                 self.emit("call", FUNC_INDEX["stopTask"])
                 return
             if fs in MARK_HOOKS and not args:
@@ -490,6 +506,9 @@ class FnCompiler:
 
     def cassign(self, s, target, value):
         ts = u(target)
+        if ts == "self._state" and self.lname == "stopTask":
+            self.emit("stState", self.state_index(s, value))
+            return
         # write of the slot
         if self.env.slot and ts == self.env.slot:
             if isinstance(value, ast.Constant) and value.value is None:
@@ -790,6 +809,25 @@ class Translator:
                 if not (isinstance(s, ast.Expr) and isinstance(s.value, ast.Constant) and isinstance(s.value.value, str))
                 and not (isinstance(s, ast.Expr) and isinstance(s.value, ast.Call) and u(s.value.func).startswith("_logger."))]
 
+    def read_states(self):
+        """Members of _TaskThread.State in definition order (their index is the model's encoding of `_state`)."""
+        cs = [n for n in self.task_ast.body if isinstance(n, ast.ClassDef) and n.name == "_TaskThread"]
+        es = [n for n in (cs[0].body if cs else []) if isinstance(n, ast.ClassDef) and n.name == "State"]
+        if len(es) != 1:
+            raise Untranslatable("qmi/core/task.py: _TaskThread.State not found")
+        names = []
+        for st in es[0].body:
+            if isinstance(st, ast.Assign) and len(st.targets) == 1 and isinstance(st.targets[0], ast.Name):
+                names.append(st.targets[0].id)
+            elif isinstance(st, ast.Expr) and isinstance(st.value, ast.Constant):
+                continue
+            else:
+                raise Untranslatable(f"qmi/core/task.py: _TaskThread.State has a member definition that is not understood: {u(st)[:80]}")
+        if sorted(names) != sorted(STATE_NAMES):
+            raise Untranslatable(f"qmi/core/task.py: _TaskThread.State members are {names}, expected {list(STATE_NAMES)}")
+        self.state_names = names
+        self.state_index = {n: i for i, n in enumerate(names)}
+
     def require_stop_requested(self):
         if "stop_requested" in self._checked:
             return
@@ -824,6 +862,7 @@ class Translator:
     def run(self):
         T, P = "qmi/core/task.py", "qmi/core/pubsub.py"
         specs = []
+        self.read_states()
         f = self.find(self.task_ast, "_TaskThread", "stop_task", T)
         self.check_params(f, ["self"], T)
         specs.append(("stopTask", f, T, Env(
@@ -853,8 +892,14 @@ class Translator:
         f = self.find(self.task_ast, "QMI_LoopTask", "run", T)
         self.check_params(f, ["self"], T)
         specs.append(("loopRun", f, T, Env(flags={"self._stop_requested"}, params=["self"])))
-        # the stop request must reach stop_task
-        self.require_runner_stop()
+        # the stop request's way to stop_task: QMI_TaskRunner.stop (what the proxy's stop() executes on the RPC worker) and
+        # _TaskThread._request_shutdown (interpreter shutdown)
+        f = self.find(self.task_ast, "QMI_TaskRunner", "stop", T)
+        self.check_params(f, ["self"], T)
+        specs.append(("runnerStop", f, T, Env(params=["self"])))
+        f = self.find(self.task_ast, "_TaskThread", "_request_shutdown", T)
+        self.check_params(f, ["self"], T)
+        specs.append(("requestShutdown", f, T, Env(params=["self"])))
         progs = []
         for (lname, fdef, fname, env) in specs:
             c = FnCompiler(self, lname, fdef, env, fname)
@@ -891,6 +936,14 @@ class Translator:
             hl = ", ".join(f"⟨{lo}, {hi}, {t}, {'none' if k is None else 'some ' + k}⟩" for (lo, hi, t, k) in hs)
             out.append(f"  handlers := [{hl}] }}")
             out.append("")
+        out.append("/-- members of `_TaskThread.State` in definition order; the index is the value of `St.tstate` -/")
+        out.append("def stateNames : List String := [" + ", ".join(f'"{n}"' for n in self.state_names) + "]")
+        short = {"INITIAL": "stInitial", "EXCEPTION_WHILE_INSTANTIATING_TASK": "stExcInit", "READY_TO_RUN": "stReady",
+                 "RUNNING": "stRunning", "EXCEPTION_WHILE_RUNNING_TASK": "stExcRun", "TASK_COMPLETED_NORMALLY": "stCompleted",
+                 "TASK_STOPPED_BEFORE_START": "stStoppedBeforeStart"}
+        for n in STATE_NAMES:
+            out.append(f"def {short[n]} : Nat := {self.state_index[n]}")
+        out.append("")
         out.append("def funcs : List Func := [" + ", ".join(p[0] for p in progs) + "]")
         out.append("")
         out.append("end QmiModel.Gen.SyncProgs")
